@@ -8,12 +8,14 @@ from harness.c04 import rF, quasi_diag_tt
 from symtt.ref import ref_full, well_formed
 
 
-def h_generic_d2(ctx, n1, r, n2, is_eigh, use_stab, with_cap):
+def h_generic_d2(ctx, n1, r, n2, is_eigh, use_stab, with_cap, fixed_q=False):
     """Generic 2-D tensor: cores G1 := Q R, G2 := R^-1 U diag(w) V0 with Q, U, V0
     from Householder parametrisations, R upper triangular invertible, w >= 0
     descending (rank-deficient second factor allowed)."""
     k1 = min(n1, r)
-    Q = householder_frame(ctx, 'q', n1, k1)
+    # fixed_q: the orthonormal factor of the first core is the identity (bond rank
+    # above the last mode size at affordable cost; R stays symbolic)
+    Q = eye(ctx, n1)[:, :k1].copy() if fixed_q else householder_frame(ctx, 'q', n1, k1)
     R = upper(ctx, 'r', k1, r)
     if k1 != r:
         raise NotImplementedError
@@ -41,8 +43,11 @@ def h_generic_d2(ctx, n1, r, n2, is_eigh, use_stab, with_cap):
                          [ctx.const(0), 1 / R[1, 1]]], dtype=M.dtype)
     elif r == 1:
         Rinv = np.array([[1 / R[0, 0]]], dtype=M.dtype)
+    elif is_sym(ctx):
+        from symtt import stubs
+        Rinv = stubs.np_inv(R)
     else:
-        raise NotImplementedError
+        Rinv = np.linalg.inv(R)
     G2 = Rinv @ M
     Y = [rF(M0, (1, n1, r)), rF(G2, (r, n2, 1))]
     Y0 = [G.copy() for G in Y]
@@ -246,6 +251,10 @@ def instances(tier):
                 for cap in (False, True):
                     out.append({'func': 'h_generic_d2', 'params': {
                         'n1': n1, 'r': r, 'n2': n2, 'is_eigh': is_eigh, 'use_stab': use_stab, 'with_cap': cap}})
+    # bond rank 3 above the last mode size 2 (tall unfolding of the last core)
+    for is_eigh in (True, False):
+        out.append({'func': 'h_generic_d2', 'params': {'n1': 3, 'r': 3, 'n2': 2, 'is_eigh': is_eigh, 'use_stab': False,
+                                                       'with_cap': False, 'fixed_q': True}})
     qd = [(3, 2), (4, 2)] if quick else [(3, 2), (4, 2), (3, 3), (5, 2)]
     for d, n in qd:
         for is_eigh in (True, False):
